@@ -595,7 +595,16 @@ def run(ctx):
         okord = cfg.pos_of[rs[0][1]["id"]] < cfg.pos_of[c["id"]] if cfg.block_for(rs[0][1]) == cfg.block_for(c) else \
             cfg.dominates(cfg.block_for(rs[0][1]), cfg.block_for(c))
         allp = paths.enumerate_paths(f)
-        every = all(any(x["id"] == c["id"] for x in q.calls()) and any(x["id"] == rs[0][1]["id"] for x in q.calls()) for q in allp)
+        def zero_len(q):
+            """the path has established n == 0: there is nothing to copy"""
+            for a in q.atoms:
+                if a[0] == "cmp" and a[2] == "==" and ((strip_all_casts(a[4]).get("decl") == size_p and const_value(a[5]) == 0) or
+                                                       (strip_all_casts(a[5]).get("decl") == size_p and const_value(a[4]) == 0)):
+                    return True
+                if a[0] == "truth" and a[2] is False and strip_all_casts(a[3]).get("decl") == size_p:
+                    return True
+            return False
+        every = all((any(x["id"] == c["id"] for x in q.calls()) or zero_len(q)) and any(x["id"] == rs[0][1]["id"] for x in q.calls()) for q in allp)
         why = "resize=sizeof(Header)+n:%s copy length=n:%s destination=data()+sizeof(Header):%s source=data parameter:%s resize first:%s on every path:%s" % (
             okr, oklen, okdst, oksrc, okord, every)
         return okr and oklen and okdst and oksrc and okord and every, why
